@@ -9,6 +9,7 @@ minimised by ddmin with "the two configurations still differ in the same way"
 as the test, and written as a replay file that carries both configurations.
 """
 import importlib
+import time
 import os
 import re
 
@@ -170,7 +171,7 @@ def run_part(pool, prop, part, verif_seed, n, budget, extra_cov):
                     return res
                 try:
                     if tester([program])[0]:
-                        minimised = ddmin.minimise_program(program, tester, cli.get_simplifiers(part.machine))
+                        minimised = ddmin.minimise_program(program, tester, cli.get_simplifiers(part.machine), deadline=time.monotonic() + 40)
                 except Exception as e:     # noqa
                     report['notes'].append('diff minimisation failed: %r' % (e,))
             path = cli.write_replay(prop.id, part, base, fp, 'diff', s, minimised, detail,
